@@ -127,7 +127,7 @@ class CostMachine(Machine):
         if sw.random() < 0.3:
             probes.append(None)  # the fit's own defaults: no set_all before the observation
         allops = [["new", spec, pre]] + ops + [["probe", probes]]
-        return {"machine": self.name, "seed": seed, "knobs": {"order": sw.choice(["shuffle", "insertion"]), "do_fit": sw.random() < 0.35}, "ops": allops}
+        return {"machine": self.name, "seed": seed, "knobs": {"order": sw.choice(["shuffle", "insertion"]), "do_fit": sw.random() < 0.35, "fit_first": sw.random() < 0.2}, "ops": allops}
 
     def simplify(self, op):
         if op[0] == "add_error":
@@ -254,6 +254,16 @@ class CostMachine(Machine):
             ref.model = lambda q, mvals=mvals: mvals
             ref.hist_unscaled = lambda q, mvals=mvals, N=ref.n_entries: mvals / N
             res.probe("hist_model_from_sibling")
+        if case["knobs"].get("fit_first") and p is not None and pi == 0:
+            # "at any parameter point": also after the fit has been run once (the minimizer may have selected another cost node)
+            free = ref.n_par - len(ref.fixed)
+            if free >= 1 and len(ref.d) >= free + 1:
+                try:
+                    fit.do_fit()
+                    res.probe("cost_observed_after_do_fit")
+                except Exception as e:
+                    res.bump("discard_do_fit_raised_" + type(e).__name__)
+                    return
         if p is not None:
             fit.set_all_parameter_values(list(p))
         eps = ref.slope_rel_error_bound(p_eff)
